@@ -65,6 +65,7 @@ Record cfg := mkCfg {
 (* ---- guards: the generated kernels at nat arguments ---- *)
 Definition blocked (a l m : nat) : bool :=
   dispatch_wait false (Z.of_nat a) (Z.of_nat l) (Z.of_nat m).
+Definition predraw (a m : nat) : bool := pre_draw_wait false (Z.of_nat a) (Z.of_nat m).
 Definition choose (c : cfg) (ti : nat) (lc : list nat) : option (nat * nat * list nat) :=
   match get_task_worker_id (order c) (Z.of_nat (njobs c)) None (Z.of_nat ti) (map Z.of_nat lc) with
   | Ok (w, (ti', lc')) => Some (Z.to_nat w, Z.to_nat ti', map Z.to_nat lc')
@@ -90,6 +91,12 @@ Definition step (c : cfg) (s : st) (a : label) : option st :=
   | LMain =>
     match main s with
     | MDispatch rem None =>
+        if predraw (nactive s) (maxact c) then                     (* get below the bound before drawing more input *)
+          match items s with
+          | x :: it => Some (s <| items := it |> <| nactive := nactive s - 1 |> <| yielded := yielded s ++ [x] |>)
+          | [] => None
+          end
+        else
         match rem with
         | ch :: rem' => Some (s <| main := MDispatch rem' (Some ch) |> <| ndrawn := ndrawn s + length ch |>)
         | [] => Some (s <| main := MDrain |>)                     (* set_length(n_tasks) *)
